@@ -272,8 +272,17 @@ def pattern(gfunc):
             self._args = args
             self._kwargs = kwargs
 
-        def __embed__(self, _=None):
-            return type(self)._gfunc(*self._args, **self._kwargs)
+        def __embed__(self, inval=None):
+            # The generator function has no inval parameter, values sent
+            # to it are passed on and the last one is handed to whatever
+            # is embedded next.
+            iterator = type(self)._gfunc(*self._args, **self._kwargs)
+            try:
+                inval = yield next(iterator)
+                while True:
+                    inval = yield iterator.send(inval)
+            except StopIteration:
+                return inval
 
     _.__name__ = gfunc.__name__
     _.__qualname__ = gfunc.__qualname__
